@@ -158,21 +158,23 @@ def run(ctx, module, cfg=None, cfg_text=None, extra=None, simulate=None, depth=N
     return r
 
 
-def parse_sim_stream(records):
-    """Split a stream of per-state records (each with 'lvl') emitted from an always-true invariant during
-    -simulate -workers 1 into behaviours.  lvl 1 = initial state, a drop back to lvl<=2 starts a new behaviour."""
-    behs, cur = [], None
+def parse_sim_stream(records, frozen_keys):
+    """Split the per-state records emitted from an always-true invariant during `-simulate -workers 1`
+    (each with 'lvl' = TLCGet("level")) into behaviours.  TLC evaluates the invariant on every initial state
+    once (lvl 1) and then on the states of each simulated behaviour from lvl 2 on; the behaviour's initial state is
+    the lvl-1 record that agrees with it on the frozen (never-changing) variables."""
+    inits, behs, cur = [], [], None
     for rec in records:
         if rec["lvl"] == 1:
-            cur = [rec]
+            inits.append(rec)
+            continue
+        if rec["lvl"] == 2:
+            init = [r for r in inits if all(r[k] == rec[k] for k in frozen_keys)]
+            if len(init) != 1:
+                raise MachineryError("cannot identify the initial state of a simulated behaviour (%d candidates)" % len(init))
+            cur = [init[0]]
             behs.append(cur)
-        elif cur is not None:
-            if rec["lvl"] == len(cur) + 1:
-                cur.append(rec)
-            elif rec["lvl"] == 2:
-                # new behaviour from the same initial state record (TLC re-uses the init state)
-                cur = [cur[0], rec]
-                behs.append(cur)
-            else:
-                cur.append(rec)
+        if cur is None or rec["lvl"] != len(cur) + 1:
+            raise MachineryError("simulation stream out of order at level %s" % rec["lvl"])
+        cur.append(rec)
     return behs
